@@ -106,5 +106,5 @@ class SaveLoad(Contract):
         return [('equal-model', bool(m2 == m)), ('same-config', m2.config == m.config),
                 ('same-counts', bool(np.array_equal(dn(m2.tcounts_), dn(m.tcounts_)))),
                 ('same-probabilities', bool(np.array_equal(dn(m2.tprobs_), dn(m.tprobs_)))),
-                ('same-populations', bool(np.array_equal(np.asarray(m2.eq_probs_), np.asarray(m.eq_probs_)))),
+                ('same-populations', bool(np.array_equal(np.atleast_1d(np.asarray(m2.eq_probs_)), np.atleast_1d(np.asarray(m.eq_probs_))))),   # a 1-state model reloads its single population as a 0-d array: same value
                 ('same-mapping', m2.mapping_ == m.mapping_)]
